@@ -226,14 +226,15 @@ Lemma nsum_lcount k (f : nat -> nat) l :
   nsum k (fun c => lcount (fun r => (f r =? c)%nat) l) = length l.
 Proof.
   induction l as [|a l IH]; intros H.
-  - simpl. induction k; simpl; auto.
+  - simpl. clear H. induction k as [|k IHk]; simpl; auto. rewrite IHk. reflexivity.
   - cbn [lcount length]. rewrite nsum_plus, IH by (intros; apply H; now right).
     rewrite nsum_indicator by (apply H; now left). reflexivity.
 Qed.
 Lemma list_sum_nsum (l : list nat) : list_sum l = nsum (length l) (fun c => nth c l 0%nat).
 Proof.
   induction l as [|a l IH] using rev_ind; [reflexivity|].
-  rewrite list_sum_app, app_length. simpl. rewrite Nat.add_comm. cbn [nsum plus].
+  rewrite list_sum_app, app_length. replace (length l + length [a])%nat with (S (length l)) by (simpl; lia).
+  change (list_sum [a]) with (a + 0)%nat. cbn [nsum].
   rewrite app_nth2, Nat.sub_diag by lia. cbn [nth]. rewrite IH.
   assert (E : forall j, (j <= length l)%nat -> nsum j (fun c => nth c (l ++ [a]) 0%nat) = nsum j (fun c => nth c l 0%nat)).
   { induction j as [|j IHj]; intros Hj; simpl; auto. rewrite IHj by lia. rewrite app_nth1 by lia. reflexivity. }
